@@ -187,18 +187,31 @@ def m_dict(it, *a, **k):
     return dict(*a, **k)
 
 
+def _release(seq):
+    """CPython drops its reference to the argument when any()/all() returns: a generator that is not referenced elsewhere is closed there (its
+    finally blocks run).  Assumed: a generator handed to any()/all() is not resumed afterwards."""
+    if type(seq).__name__ == "LazyGen":
+        seq.close()
+
+
 def m_any(it, seq):
-    for x in it.iterate(seq):  # lazy and short-circuiting like the builtin: the truth of every element is decided on the path
-        if it.truth(x):
-            return True
-    return False
+    try:
+        for x in it.iterate(seq):  # lazy and short-circuiting like the builtin: the truth of every element is decided on the path
+            if it.truth(x):
+                return True
+        return False
+    finally:
+        _release(seq)
 
 
 def m_all(it, seq):
-    for x in it.iterate(seq):
-        if not it.truth(x):
-            return False
-    return True
+    try:
+        for x in it.iterate(seq):
+            if not it.truth(x):
+                return False
+        return True
+    finally:
+        _release(seq)
 
 
 def m_abs(it, x):
